@@ -8,10 +8,17 @@ package didsubject
 //@   trusted
 //@   benign
 //@   ensures result != nil
+// The current version of a locally managed DID is the row with the HIGHEST VERSION NUMBER among those of exactly
+// this DID written not after the moment asked for (versions only grow; timestamps of a history need not).
 //@ func (*SqlDIDDocumentManager).Latest
-//@   trusted
-//@   benign
+//@   prop C18 C13
+//@   nullable resolveTime
+//@   assume-benign
 //@   ensures isNilIface(result.1) ==> result.0 != nil
+//@   call (*gorm.DB).Where #1 requires [rows-of-exactly-this-did-up-to-the-moment-asked-for] arg(1) == any("did = ? AND updated_at <= ?") && len(arg(2)) == 2
+//@        && arg(2)[0] == any(ret(call (did.DID).String #1)) && same(arg(call (did.DID).String #1, 0), did) && arg(2)[1] == any(notAfter)
+//@   call (*gorm.DB).Order #1 requires [highest-version-first] arg(1) == any("version desc") && arg(0) == ret(call (*gorm.DB).Where #1)
+//@   call (*gorm.DB).First #1 requires [the-first-of-that-order] arg(0) == ret(call (*gorm.DB).Order #1) && len(arg(2)) == 0
 //@ func (orm.DidDocument).ToDIDDocument
 //@   trusted
 //@   benign
@@ -98,10 +105,6 @@ package didsubject
 //@ func (SqlDIDManager).FindBySubject
 //@   trusted
 //@   benign
-//@ func (*SqlDIDDocumentManager).Latest
-//@   trusted
-//@   benign
-//@   ensures isNilIface(result.1) ==> result.0 != nil
 //@ func did.ParseDID
 //@   trusted
 //@   benign
